@@ -13,8 +13,12 @@ Import ListNotations.
 Open Scope N_scope.
 From Coq Require Import String. Open Scope string_scope. Open Scope N_scope. Open Scope list_scope.
 
+Definition lit_cmd : bytes := Eval vm_compute in s2b "cmd/".
+Definition lit_v0_0_0 : bytes := Eval vm_compute in s2b "v0.0.0".
+Definition lit_stack : bytes := Eval vm_compute in s2b "stack".
+
 (* telemetry.IsToolchainProgram *)
-Definition is_toolchain (prog : bytes) : bool := has_prefix prog (s2b "cmd/").
+Definition is_toolchain (prog : bytes) : bool := has_prefix prog (lit_cmd).
 
 Definition mem (x : bytes) (l : list bytes) : bool := existsb (beq x) l.
 
@@ -131,7 +135,7 @@ Section Gen.
   Definition latest_release (sorted : list bytes) : bytes :=
     fold_left (fun l v => let cv := canonical v in
                           if is_empty (prerelease cv) && cmp_lt (vcmp false l cv) then cv else l)
-              sorted (s2b "v0.0.0").
+              sorted (lit_v0_0_0).
 
   (* None = the "can't happen" panic *)
   Definition pad_versions (versions patts : list bytes) (pd : padding) : option (list bytes) :=
@@ -148,7 +152,7 @@ Section Gen.
     && negb (match c_issue r with [] => true | _ => false end)
     && negb (is_empty (c_program r)) && negb (is_empty (c_counter r)) && negb (is_empty (c_type r))
     && (0 <=? c_depth r)%Z
-    && ((c_depth r =? 0)%Z || beq (c_type r) (s2b "stack"))
+    && ((c_depth r =? 0)%Z || beq (c_type r) (lit_stack))
     && (is_empty (c_version r) || is_valid (is_toolchain (c_program r)) (c_version r)).
 
   (* ---- minVersion *)
